@@ -359,7 +359,7 @@ def generic_check(pid, tier, seed, gens, driver, monitor, note, assumptions, lev
 def c09(pid, tier, seed):
     q = tier == "quick"
     allgaps = {1, 7, 1000, 15000, 3600000, 259200000}
-    gens = [("steady_e3", "MC_Estimator", dict(D=3 if q else 5, Mode="steady", GapMs=allgaps, StepSet={"1"}, RatePerMs=1, BigStart=False), "bfs"),
+    gens = [("steady_e3", "MC_Estimator", dict(D=3 if q else 4, Mode="steady", GapMs=allgaps, StepSet={"1"}, RatePerMs=1, BigStart=False), "bfs"),
             ("steady_e6", "MC_Estimator", dict(D=3 if q else 4, Mode="steady", GapMs=allgaps, StepSet={"1"}, RatePerMs=1000, BigStart=False), "bfs"),
             ("steady_big", "MC_Estimator", dict(D=3 if q else 4, Mode="steady", GapMs={1, 7, 1000, 15000}, StepSet={"1"}, RatePerMs=1, BigStart=True), "bfs"),
             ("free", "MC_Estimator", dict(D=3 if q else 4, Mode="free", GapMs={1, 1000, 15000, 259200000}, StepSet={"1", "e6", "e9"}, RatePerMs=1, BigStart=False), "bfs"),
